@@ -248,7 +248,28 @@ class NDArr:
                 raise ModelError('ndarr: index array and integer separated by a slice')
         return sels
 
+    def _nd_index(self, k):
+        """an index array of two or more dimensions into a one-dimensional array (numpy: the result has the shape of the index) -> nested list
+        of checked positions, or None when k is no such index"""
+        if isinstance(k, NDArr):
+            k = k.d
+        if not isinstance(k, list) or _depth(k) < 2 or self.ndim != 1:
+            return None
+        n = len(self.d)
+
+        def chk(i):
+            if isinstance(i, bool) or not hasattr(i, '__index__'):
+                raise ModelError('ndarr: multi-dimensional index array with non-integer elements')
+            i = i.__index__()
+            if i < -n or i >= n:
+                raise IndexError(f'index {i} is out of bounds for axis 0 with size {n}')
+            return i % n if n else i
+        return _map(k, chk)
+
     def __getitem__(self, k):
+        nd = self._nd_index(k)
+        if nd is not None:
+            return NDArr(_map(nd, lambda i: self.d[i]), dt=self.dt)
         r = self._getitem(k)
         if isinstance(r, NDArr):
             r.dt = self.dt
@@ -275,6 +296,19 @@ class NDArr:
         origin = getattr(self, '_origin', None)
         if self.view and origin is None:
             raise ModelError('ndarr: store through a view of unknown origin')
+        nd = self._nd_index(k)
+        if nd is not None:
+            v = _raw(val)
+            if isinstance(v, NS):
+                raise ModelError('ndarr: object stored into an array')
+            if isinstance(v, list) and _depth(v) > _depth(nd):
+                raise ValueError(f'shape mismatch: value array of shape {_shape(v)} could not be broadcast to indexing result of shape {_shape(nd)}')
+            for i, x in _flat(_bc(nd, v, lambda i_, x_: (i_, x_))):      # duplicates: the last one wins, as in numpy (a[idx] += 1 counts once)
+                self.d[i] = x
+            if origin is not None:
+                parent, pk = origin
+                parent[pk] = NDArr(self.d)
+            return
         sels = self._selectors(k)
         val = _raw(val)
         # shape of the selection
